@@ -735,6 +735,66 @@ func (x *c19ctx) twoFiles(chW, chD string) {
 	}
 }
 
+// noHome: allow-write=true given through a file channel while neither HOME nor XDG_CONFIG_HOME is set.
+func (x *c19ctx) noHome(ch string) {
+	run := x.e.Run
+	for attempt := 1; attempt <= 2; attempt++ {
+		id := x.seq.Add(1)
+		base := filepath.Join(x.e.Scratch, "c19", fmt.Sprintf("%04d", id))
+		cwd, root := filepath.Join(base, "cwd"), filepath.Join(base, "root")
+		for _, d := range []string{cwd, root} {
+			must(os.MkdirAll(d, 0o755))
+		}
+		L := &c19Launch{base: base, root: root, files: map[string]string{}, settingN: "allow-write(no HOME)"}
+		L.env = []string{"HOME=", "XDG_CONFIG_HOME="}
+		var global []string
+		content := "[server]\nallow-write = true\n"
+		var path string
+		switch ch {
+		case c19Ini:
+			path = filepath.Join(base, "given-by-flag.ini")
+			global = append(global, "--config="+path)
+		case c19EnvFile:
+			path = filepath.Join(base, "given-by-env.ini")
+			L.env = append(L.env, "PS3NETSRV_CONFIG_FILE="+path)
+		case c19CwdIni:
+			path = filepath.Join(cwd, "config.ini")
+		}
+		must(os.WriteFile(path, []byte(content), 0o644))
+		L.files[path] = content
+		L.args = append(global, "server", "--root="+root, "--listen-addr=127.0.0.1:0")
+		L.p, L.err = host.SpawnBin(x.e.Bin, L.args, host.Opt{Dir: x.e.Dir("logs"), Tag: fmt.Sprintf("c19-%04d", id), Env: L.env}, cwd, true)
+		run.Eval(1)
+		run.Count("launches", 1)
+		if L.p == nil || L.err != nil {
+			if L.p != nil {
+				L.p.Stop()
+			}
+			run.Inconclusive(fmt.Sprintf("no-HOME %s: binary did not start: %v", ch, L.err))
+			return
+		}
+		h, port := L.mainAddr()
+		if h == "" || h == "0.0.0.0" {
+			h = "127.0.0.1"
+		}
+		ow := x.probeAllowWrite(L, fmt.Sprintf("%s:%d", h, port))
+		L.p.Stop()
+		if ow.inconclusive {
+			run.Inconclusive(fmt.Sprintf("no-HOME %s: %s", ch, ow.note))
+			return
+		}
+		if ow.state == "write:on" {
+			run.Sig("allow-write via %s without HOME/XDG_CONFIG_HOME -> in force", ch)
+			return
+		}
+		if attempt == 2 {
+			wit := L.witness()
+			wit["observed"] = ow.state
+			run.Violate("no-effect", "allow-write/"+ch+"+no-home", fmt.Sprintf("allow-write=true given via %s has no effect when neither HOME nor XDG_CONFIG_HOME is set (observed %s)", ch, ow.state), wit)
+		}
+	}
+}
+
 // malformed: the value must stop start-up (exit status != 0, never "Listening").
 func (x *c19ctx) malformed(s *c19Setting, ch, val, label string) {
 	run := x.e.Run
@@ -922,10 +982,17 @@ func C19(e *Env) {
 		{"read-timeout", "abc", "abc", false},
 		{"read-timeout", "10", "no unit", true},
 		{"read-timeout", "-", "dash", false},
+		// a key that is present but empty (INI only: an empty environment variable means "unset")
+		{"client-whitelist", "", "empty value", true},
+		{"max-clients", "", "empty value", true},
+		{"read-timeout", "", "empty value", true},
 	}
 	for _, b := range bads {
 		for _, ch := range []string{c19Flag, c19EnvVar, c19Ini} {
 			if ch != c19Flag && !e.Thorough && !b.quickAll {
+				continue
+			}
+			if b.val == "" && ch != c19Ini {
 				continue
 			}
 			b, ch := b, ch
@@ -962,6 +1029,13 @@ func C19(e *Env) {
 			nTwo++
 			cases = append(cases, func() { x.twoFiles(a, b) })
 		}
+	}
+
+	// 7. no user configuration directory can be determined (HOME and XDG_CONFIG_HOME empty, as under
+	// `env -i`, a service manager or a minimal container): the other locations still work
+	for _, ch := range []string{c19CwdIni, c19EnvFile, c19Ini} {
+		ch := ch
+		cases = append(cases, func() { x.noHome(ch) })
 	}
 
 	ParallelDo(len(cases), 8, func(i int) { cases[i]() })
